@@ -162,6 +162,46 @@ LawCollisionsKept ==
   \A n \in Nodes(c) : Cardinality(Hits(c, n)) >= 1
      /\ Cardinality(UNION {Hits(c, m) : m \in Nodes(c)}) = Cardinality(V(c))
 
+-----------------------------------------------------------------------------
+(* Rewiring a port of an existing process to another store (Store.connect):  *)
+(* the topology entry becomes the relative path from the process's parent to  *)
+(* the target (as path_to gives it), and from then on the port's variables    *)
+(* are read from and written to the target.                                   *)
+
+RECURSIVE CommonLen(_, _)
+CommonLen(a, b) ==
+  IF a = <<>> \/ b = <<>> \/ Head(a) # Head(b) THEN 0
+  ELSE 1 + CommonLen(Tail(a), Tail(b))
+PathTo(a, b) ==
+  LET k == CommonLen(a, b)
+  IN [i \in 1..(Len(a) - k) |-> UP] \o SubSeq(b, k + 1, Len(b))
+
+RewireTargets == {<<"t1">>, <<"c", "t2">>, <<"c", "d", "t3">>, <<"u", "t4">>}
+RewireKinds == {kd \in Kinds : kd.k \in {"leaf", "branch"}}
+RewireCases ==
+  {[loc |-> loc, kd |-> kd, p |-> p, tgt |-> tgt] :
+      loc \in Locs, kd \in RewireKinds, p \in {<<"x">>, <<UP, "y">>, <<"x", "w">>},
+      tgt \in RewireTargets}
+RewireOK(rc) ==
+  LET ports == <<[kd |-> rc.kd, tp |-> [t |-> "path", hasp |-> FALSE, p |-> rc.p, sub |-> <<>>]]>>
+  IN WellFormed(rc.loc, ports) /\ ~IsPrefixOf(rc.loc \o <<"proc">>, rc.tgt)
+\* for a leaf port the target is a variable of the target store
+TargetNode(rc) == IF rc.kd.k = "leaf" THEN rc.tgt \o <<"a">> ELSE rc.tgt
+RewireEntry(rc) ==
+  [loc |-> rc.loc, kind |-> rc.kd.k, vs |-> rc.kd.vs, p |-> rc.p, tgt |-> TargetNode(rc),
+   newpath |-> PathTo(rc.loc, TargetNode(rc)),
+   before |-> {[v |-> v, node |-> Norm(rc.loc \o rc.p) \o v] : v \in PortVars(rc.kd)},
+   after |-> {[v |-> v, node |-> TargetNode(rc) \o v] : v \in PortVars(rc.kd)}]
+\* following the new entry from the process's parent reaches the target
+LawRewireReachesTarget ==
+  \A rc \in {x \in RewireCases : RewireOK(x)} :
+     Norm(rc.loc \o PathTo(rc.loc, TargetNode(rc))) = TargetNode(rc)
+
+ExportRewire ==
+  /\ TLCGet("stats").generated >= 0
+  /\ JsonSerialize(IOEnv.OUT_FILE,
+        SetToSeq({RewireEntry(rc) : rc \in {x \in RewireCases : RewireOK(x)}}))
+
 Entry(cs) ==
   [loc |-> cs.loc,
    ports |-> [i \in DOMAIN cs.ports |->
